@@ -145,6 +145,7 @@ type Server struct {
 	Unstructured  bool // objects and lists in the dynamic client's representation (*unstructured.Unstructured / UnstructuredList)
 	EmptyListRV   bool // lists carry no resourceVersion of their own
 	errFlavor     int
+	stopDrawn, oneShotStop bool
 	// HeadFrame: every watch stream opens with a non-object frame (a server or
 	// proxy announcing itself): "bookmark" | "status" | "unknown-type"
 	HeadFrame string
@@ -582,6 +583,22 @@ func (c *conn) Stop() {
 	if !c.stopped {
 		c.stopped = true
 		close(c.stop)
+		return
+	}
+	// watch.Interface does not promise that Stop may be called twice, and some
+	// streams (client-go's RetryWatcher) do not allow it
+	c.s.stopFlavour()
+	if c.s.oneShotStop {
+		detsim.Count("probe:one-shot-stream-stopped-again")
+		close(c.stop) // "close of closed channel", as such a stream does
+	}
+}
+
+// stopFlavour: are this server's streams of the kind whose Stop() works once?
+func (s *Server) stopFlavour() {
+	if !s.stopDrawn {
+		s.stopDrawn = true
+		s.oneShotStop = detsim.Choose("one-shot-stop", 2) == 1
 	}
 }
 
